@@ -17,7 +17,7 @@ func TestVerif(t *testing.T) {
 		Rule: "(a) call scenarios on a virtual clock (synctest bubble, no sockets): stack auth.Client -> http.Client -> [send counter] -> retry.Transport -> fake registry/token service. " +
 			"Every sequence of server answers, chosen lazily one per attempt that reaches the registry, of length <= MaxRetry+4 (later attempts succeed) over the alphabet " +
 			"{503, success, 401 Bearer, 401 Basic, 408, 429 Retry-After:1, 429 Retry-After:100, 429 Retry-After:garbage, timeout error, other transport error, a temporary transport error that is no timeout; thorough adds 429, 500, 404}; " +
-			"x body kind {none (GET), PUT *bytes.Reader, PUT one-shot reader, PUT whose GetBody fails, one-shot reader through Repository.Manifests().Push, Repository.Blobs().Push with *bytes.Reader and with a one-shot reader (POST then PUT)} " +
+			"x body kind {none (GET), PUT *bytes.Reader, PUT one-shot reader, PUT whose GetBody fails, one-shot reader through Repository.Manifests().Push, Repository.Blobs().Push with *bytes.Reader, with a one-shot reader and with a file-like io.ReadSeeker positioned behind a two-byte header (POST then PUT)} " +
 			"x body size {0,1,3} x the fake reading the whole body or only j bytes (j < size) before every non-success answer x MaxRetry {0,1,2} x token cache {none, pre-filled with two bearer tokens} " +
 			"x policy {default parameters 250ms/2/0.1 in [200ms,3s]; a zero-pause policy 0/2/0.1 in [0,0] (one configuration per body kind); thorough adds 1ms/10/0.5 in [5ms,40ms]}. " +
 			"Each execution runs the call undisturbed and then once more per retry pause with the context cancelled at half of that pause (WithCancel+AfterFunc, and WithTimeout), replaying the same answers. " +
@@ -57,6 +57,7 @@ func combos(th bool) []combo {
 	out = append(out, combo{kOneShotChunked, 3, -1}, combo{kOneShotChunked, 1, 0}, combo{kGetBodyChunked, 3, -1}, combo{kGetBodyChunked, 3, 1})
 	out = append(out, combo{kManifestPush, 0, -1}, combo{kManifestPush, 1, -1}, combo{kManifestPush, 3, -1}, combo{kManifestPush, 3, 1})
 	out = append(out, combo{kBlobReader, 3, -1}, combo{kBlobReader, 3, 1}, combo{kBlobOneShot, 3, -1}, combo{kBlobOneShot, 3, 1})
+	out = append(out, combo{kBlobSeeker, 3, -1}, combo{kBlobSeeker, 3, 1})
 	if th {
 		out = append(out, combo{kBlobReader, 0, -1}, combo{kBlobReader, 1, 0}, combo{kBlobOneShot, 0, -1}, combo{kBlobOneShot, 1, 0}, combo{kManifestPush, 1, 0})
 	}
